@@ -168,7 +168,7 @@ def optionReads : List String := [
   "pkg/generator Generator.findOutputFileForSchemaID: range g.config.SchemaMappings",
   "pkg/generator Generator.getRootTypeName: if g.config.StructNameFromTitle && schema.Title != \"\"",
   "pkg/generator Generator.getRootTypeName: range g.config.SchemaMappings",
-  "pkg/generator New: if config.ExtraImports && hasTag(config.Tags, formatYAML)",
+  "pkg/generator New: if config.ExtraImports",
   "pkg/generator New: if config.Loader == nil",
   "pkg/generator New: schemas.NewDefaultCacheLoader(… config.ResolveExtensions …)",
   "pkg/generator New: schemas.NewDefaultCacheLoader(… config.YAMLExtensions …)",
